@@ -3,11 +3,16 @@ use crate::Prop;
 
 pub mod c08;
 pub mod diag;
+pub mod exprs;
+pub mod input;
+pub mod layout;
 pub mod meta;
 pub mod modelprog;
 pub mod renum;
 pub mod robust;
 pub mod store;
+pub mod strings;
+pub mod vars;
 
 pub fn make(id: &str) -> Option<Box<dyn Prop>> {
     match id {
@@ -24,6 +29,11 @@ pub fn make(id: &str) -> Option<Box<dyn Prop>> {
         "C18" => Some(Box::new(robust::C18)),
         "C14" => Some(Box::new(renum::C14)),
         "C19" => Some(Box::new(diag::C19)),
+        "C07" => Some(Box::new(strings::C07)),
+        "C02" => Some(Box::new(exprs::C02)),
+        "C11" => Some(Box::new(layout::C11)),
+        "C17" => Some(Box::new(input::C17)),
+        "C06" => Some(Box::new(vars::C06)),
         "C08" => Some(Box::new(c08::C08::new())),
         _ => None,
     }
